@@ -46,7 +46,7 @@ def run16(prop, tier, v, fams, work, judge=True, label="obs16"):
 def check_c14(tier, replay):
     v = C.Verdict("C14", tier)
     work = C.fresh_dir(os.path.join(C.OUT, "work", "C14"))
-    fams = ["F14", "F7", "F4", "F3", "F6"] if tier == "quick" else ["F14", "F1", "F1b", "F2", "F3", "F4", "F5", "F6", "F7", "F8", "F9", "F10", "FC2"]
+    fams = ["F14", "F7", "F4", "F3", "F6"] if tier == "quick" else ["F14", "F1", "F3", "F4", "F6", "F7", "F8", "F8m", "F10", "FC2"]
     if replay:
         rp = json.load(open(replay))["replay"]
         if rp.get("pipeline") == "u16robust":
